@@ -16,7 +16,7 @@ RULE = ('Hypothesis draws an ordered pair (column wavelet, row wavelet), mostly 
         'DWT[(a,b)](x) = swap_lh_hl(DWT[(b,a)](x^T))^T. Non-trivial = column wavelet != row wavelet. '
         'Distinct = configuration without seeds.')
 ASSUMPTIONS = ['PyWavelets with a per-axis wavelet tuple is the reference (axis -2 = column filters)',
-               'tolerance 1e-9*max(1,gain*max|x|), float64']
+               'tolerance 1e-11*max(1,gain*max|x|), float64']
 STRATA = {'thorough': 'free search only (106 x 105 ordered pairs are sampled, not enumerated)', 'quick': ''}
 LABEL_FLOORS = {'different_wavelets': 0.6, 'odd': 0.25}
 
@@ -172,7 +172,7 @@ def run_case(case):
             continue
         want = dwtu.flat1(ryl, ryh)
         g = max(1.0, float(np.abs(want).sum(0).max())) if name == 'operator' else g
-        tol = 1e-9 * max(g * (1.0 if name == 'operator' else core.maxabs(inp)), 1e-300)
+        tol = core.TOL64 * max(g * (1.0 if name == 'operator' else core.maxabs(inp)), 1e-300)
         okc, err = core.close(got, want, tol)
         if not okc:
             mismatch('a', 'analysis_' + name, 'DWTForward with (col=%s,row=%s) differs from '
@@ -229,10 +229,10 @@ def run_case(case):
         return r.fail(out.bucket, 'inverse raised: %s' % out)
     got = dwtu.to_np(out)[:, 0]
     g = max(1.0, float(np.abs(want).reshape(want.shape[0], -1).sum(0).max()))
-    okc, err = core.close(got, want, 1e-9 * g)
+    okc, err = core.close(got, want, core.TOL64 * g)
     if not okc:
         mismatch('s', 'synthesis_operator', 'DWTInverse with (col=%s,row=%s) differs from pywt.waverec2 '
-                 'per-axis: %s' % (wc, wr, core.first_mismatch(got, want, 1e-9 * g)))
+                 'per-axis: %s' % (wc, wr, core.first_mismatch(got, want, 1e-11 * g)))
     # a None level behaves like zeros (on the signal extent), also with separate row / column filters
     from pwv.props.c10 import ambiguous_none
     jn = case['k'] % J
@@ -252,11 +252,11 @@ def run_case(case):
             if gotn.shape[-2] < H or gotn.shape[-1] < W:
                 mismatch('s', 'synthesis_none_shape', 'output %s smaller than the image %s' % (gotn.shape, (H, W)))
             else:
-                okc, err = core.close(gotn[..., :H, :W], wantn[..., :H, :W], 1e-9 * max(g * cmax, 1e-300))
+                okc, err = core.close(gotn[..., :H, :W], wantn[..., :H, :W], core.TOL64 * max(g * cmax, 1e-300))
                 if not okc:
                     mismatch('s', 'synthesis_none_values', 'DWTInverse (col=%s,row=%s) with level %d given as None differs from '
                              'pywt.waverec2 with zeros: %s' % (wc, wr, jn + 1, core.first_mismatch(
-                                 gotn[..., :H, :W], wantn[..., :H, :W], 1e-9 * max(g * cmax, 1e-300))))
+                                 gotn[..., :H, :W], wantn[..., :H, :W], core.TOL64 * max(g * cmax, 1e-300))))
     if J == 1:
         f4 = _filters({**case, 'form': '4tuple'}, 'rec')
         t = [torch.tensor(yl[:, None])] + [torch.tensor(yh[0][:, None, i]) for i in range(3)]
@@ -265,10 +265,10 @@ def run_case(case):
         if not ok:
             r.fail(o3.bucket, 'lowlevel.sfb2d raised: %s' % o3)
         else:
-            okc, err = core.close(dwtu.to_np(o3)[:, 0], got, 1e-9 * g)
+            okc, err = core.close(dwtu.to_np(o3)[:, 0], got, core.TOL64 * g)
             if not okc:
                 r.fail('functional_sfb2d:%s' % mode, 'module differs from lowlevel.sfb2d with the same '
-                       'four filters: ' + core.first_mismatch(dwtu.to_np(o3)[:, 0], got, 1e-9 * g))
+                       'four filters: ' + core.first_mismatch(dwtu.to_np(o3)[:, 0], got, 1e-11 * g))
     return r
 
 
